@@ -199,9 +199,21 @@ def run(ctx, F):
                 ncalls += 1
                 if d in REORDER:
                     bad.append(d)
-        ctx.ob("C20.order", "%s <- %s" % (util.short_ty(a), util.short_ty(b)), not bad,
-               "%d calls inspected; reordering/dropping adaptors: %s" % (ncalls, sorted(set(bad))), site=ctx.site_of(F, f["def"]),
-               key="C20.order|%s<-%s" % (util.short_ty(a), util.short_ty(b)))
+        # no element is skipped: in the part / point conversions every iteration of every loop pushes exactly one converted element
+        # (ring grouping has its own rules: C20.nest, C20.tag)
+        skipped = []
+        if not any(w in a + b for w in ("Polygon", "Multipatch")):
+            try:
+                for p in util.run_fn(F, f, inline=lambda g, t: g.get("kind") == "Closure")[0]:
+                    for lp in [e for e in absint.flat_effects(p.eff) if e[0] == 'loop']:
+                        counts = sorted(set(len([e for e in bd['eff'] if e[0] == 'push']) for bd in lp[3]))
+                        if counts not in ([1], [0]) and lp[3]:
+                            skipped.append("a loop pushes %s elements per iteration depending on the path" % counts)
+            except absint.Unanalysable as e:
+                skipped.append("unanalysable: %s" % e)
+        ctx.ob("C20.order", "%s <- %s" % (util.short_ty(a), util.short_ty(b)), not bad and not skipped,
+               "%d calls inspected; reordering/dropping adaptors: %s%s" % (ncalls, sorted(set(bad)), ("; " + "; ".join(sorted(set(skipped)))) if skipped else ""),
+               site=ctx.site_of(F, f["def"]), key="C20.order|%s<-%s" % (util.short_ty(a), util.short_ty(b)))
     # --- nest -----------------------------------------------------------------------------------
     def nest_table(f, ps, outer_kinds, inner_kinds, kind_names, label):
         table = {}
